@@ -59,6 +59,10 @@ pub struct SockPlan {
     pub write_zero_at: Option<usize>,
     /// after this many bytes have been read, poll_read fails
     pub read_err_at: Option<(usize, ReadErrKind)>,
+    /// buffering transport (TLS / BufWriter-like): bytes accepted by poll_write reach the wire
+    /// only when poll_flush (or poll_shutdown) completes
+    #[serde(default)]
+    pub buffered: bool,
 }
 
 impl Default for SockPlan {
@@ -76,6 +80,7 @@ impl Default for SockPlan {
             write_err_at: None,
             write_zero_at: None,
             read_err_at: None,
+            buffered: false,
         }
     }
 }
@@ -144,6 +149,8 @@ pub struct SockState {
     // write side
     pub wcap: Option<usize>,
     pub out: Vec<u8>,
+    /// accepted by poll_write but not yet flushed to the wire (buffered mode)
+    pub staged: Vec<u8>,
     pub marks: Vec<Mark>,
     pub write_waker: Option<Waker>,
     pub flush_blocked: bool,
@@ -182,6 +189,7 @@ impl SockState {
             saw_eof_at: None,
             wcap,
             out: Vec::new(),
+            staged: Vec::new(),
             marks: Vec::new(),
             write_waker: None,
             flush_blocked: false,
@@ -267,6 +275,21 @@ impl SockState {
     /// The server is done with this socket: it was shut down, or dropped.
     pub fn server_closed(&self) -> bool {
         self.shutdown_done.is_some() || self.dropped.is_some()
+    }
+
+    fn flush_staged(&mut self) {
+        if !self.staged.is_empty() {
+            let off = self.out.len();
+            let data = std::mem::take(&mut self.staged);
+            self.marks.push(Mark {
+                off,
+                len: data.len(),
+                ms: self.clock.ms(),
+                step: self.clock.step(),
+            });
+            self.out.extend_from_slice(&data);
+            bump(&mut self.stats, "buffered_flush");
+        }
     }
 
     fn cap(&mut self, mode: CapMode) -> usize {
@@ -424,6 +447,15 @@ impl AsyncWrite for ServerEnd {
                 return Poll::Ready(Ok(0));
             }
         }
+        if st.plan.buffered {
+            let mode = st.plan.write_mode;
+            let n = buf.len().min(st.cap(mode));
+            st.staged.extend_from_slice(&buf[..n]);
+            if n < buf.len() {
+                bump(&mut st.stats, "partial_write");
+            }
+            return Poll::Ready(Ok(n));
+        }
         if st.wcap == Some(0) {
             bump(&mut st.stats, "write_stall");
             st.write_waker = Some(cx.waker().clone());
@@ -476,6 +508,7 @@ impl AsyncWrite for ServerEnd {
                 return Poll::Pending;
             }
         }
+        st.flush_staged();
         Poll::Ready(Ok(()))
     }
 
@@ -497,6 +530,7 @@ impl AsyncWrite for ServerEnd {
             ShutPlan::PendingMs(_) | ShutPlan::PendingForever => st.shutdown_ready,
         };
         if ready {
+            st.flush_staged();
             if st.shutdown_done.is_none() {
                 st.shutdown_done = Some((st.clock.ms(), st.clock.step()));
             }
